@@ -531,3 +531,68 @@ func copyValDeep(v Value) Value {
 	}
 	return v
 }
+
+// ---- blake2b.Sum256 as an uninterpreted, collision-free hash; bytes.Compare on symbolic bytes
+
+func init() {
+	natives["golang.org/x/crypto/blake2b.Sum256"] = func(m *Machine, c *frame, fn *ssa.Function, a []Value) Value {
+		in := string(m.concreteBytes(a[0], "blake2b.Sum256 input"))
+		if m.hashes == nil {
+			m.hashes = map[string]Array{}
+		}
+		if h, ok := m.hashes[in]; ok {
+			return copyVal(h)
+		}
+		h := make(Array, 32)
+		for i := range h {
+			t := sym.Var(m.freshName("blake2b_byte"), sym.BV(8))
+			m.sol.Declare(t)
+			m.nondets = append(m.nondets, nondetRec{Tag: "blake2b(" + strconv.Quote(in) + ")[" + strconv.Itoa(i) + "]", Kind: "uint8", T: t})
+			m.pin(t, "blake2b("+strconv.Quote(in)+")["+strconv.Itoa(i)+"]", "uint8")
+			h[i] = t
+		}
+		// collision-free: differs from every hash of a different input
+		for _, other := range m.hashes {
+			same := sym.True()
+			for i := range h {
+				same = sym.And(same, sym.Eq(h[i].(*sym.Term), other[i].(*sym.Term)))
+			}
+			m.assertPC(sym.Not(same))
+		}
+		m.hashes[in] = h
+		return copyVal(h)
+	}
+	concreteCompare := natives["bytes.Compare"]
+	natives["bytes.Compare"] = func(m *Machine, c *frame, fn *ssa.Function, a []Value) Value {
+		x, _ := a[0].([]Value)
+		y, _ := a[1].([]Value)
+		allConst := true
+		for _, v := range append(append([]Value{}, x...), y...) {
+			if t, ok := v.(*sym.Term); !ok || !t.Const {
+				allConst = false
+			}
+		}
+		if allConst && concreteCompare != nil {
+			return concreteCompare(m, c, fn, a)
+		}
+		// lexicographic comparison as a term
+		n := len(x)
+		if len(y) < n {
+			n = len(y)
+		}
+		var res *sym.Term
+		switch {
+		case len(x) < len(y):
+			res = sym.BVConst(64, ^uint64(0))
+		case len(x) > len(y):
+			res = sym.BVConst(64, 1)
+		default:
+			res = sym.BVConst(64, 0)
+		}
+		for i := n - 1; i >= 0; i-- {
+			xi, yi := m.term(x[i]), m.term(y[i])
+			res = sym.Ite(sym.ULt(xi, yi), sym.BVConst(64, ^uint64(0)), sym.Ite(sym.ULt(yi, xi), sym.BVConst(64, 1), res))
+		}
+		return res
+	}
+}
